@@ -99,9 +99,12 @@ PathKids(r0, k) == UNION {{x.c[i] : i \in {j \in 1..16 : IsHashed(x.c[j])}} :
                             x \in {y \in PathNodes(r0, k) : y.t = "branch"}}
 \* every node body an operation on key k may legitimately ask for
 NeedOf(r0, k, isDel) == NeededNodes(r0, k) \cup (IF isDel THEN PathKids(r0, k) ELSE {})
+\* (wroot: for a call that fails on a missing node, the root it would have produced on the
+\* complete database -- a call that succeeds nevertheless must produce exactly that)
 Ev(a, i, k, v, out, r0) ==
   [a |-> a, i |-> i, k |-> k, v |-> JV(v), out |-> JOut(out),
-   need |-> IF out.kind = "missing" THEN JSet(NeedOf(r0, k, v = NoVal)) ELSE {}]
+   need |-> IF out.kind = "missing" THEN JSet(NeedOf(r0, k, v = NoVal)) ELSE {},
+   wroot |-> IF out.kind = "missing" THEN J(OpRes(r0, k, v).n) ELSE <<>>]
 
 Init == /\ prune \in PruneModes
         /\ db = {} /\ root = Blank /\ rc = EmptyBag /\ contents = EmptyContents
